@@ -1009,6 +1009,24 @@ def translate_handles(repo):
     _, methods = translate(repo)
     text = ("(* GENERATED by tools/rs2v.py from %s (count observers, clone, downgrade, upgrade) -- do not edit. *)\n"
             "From Coq Require Import NArith Bool.\nFrom Gen Require Import Counters.\nLocal Open Scope N_scope.\n\n" % path)
+    # the two places that initialise an allocation: Rc::new (struct literal) and allocate_for_layout
+    # (new_uninit, From<Box<T>>): initial counters and an empty link table
+    inits = []
+    body = " ".join(_fn_body(src, r"pub fn new\(value: T\) -> Rc<T> \{").split())
+    m = re.search(r"RcBox \{ strong: Cell::new\((\d+)\), weak: Cell::new\((\d+)\), "
+                  r"links: MaybeUninit::new\(RefCell::new\(Links::new\(\)\)\), value: MaybeUninit::new\(value\), \}", body)
+    if not m:
+        raise Unsupported("Rc::new does not initialise the allocation the way the model's new_box transcribes")
+    inits.append(("new", m.group(1), m.group(2)))
+    m = re.search(r"ptr::write\(&mut \(\*inner\)\.strong, Cell::new\((\d+)\)\);\s*ptr::write\(&mut \(\*inner\)\.weak, Cell::new\((\d+)\)\);\s*"
+                  r"ptr::write\(\s*&mut \(\*inner\)\.links,\s*MaybeUninit::new\(RefCell::new\(Links::new\(\)\)\),\s*\);", src)
+    if not m:
+        raise Unsupported("allocate_for_layout does not initialise the allocation the way the model's new_box transcribes")
+    inits.append(("alloc", m.group(1), m.group(2)))
+    for nm, a, b in inits:
+        text += ("Definition g_%s_cells : cells := {| c_strong := %s; c_weak := %s |}.   (* links: Links::new() *)\n"
+                 % (nm, a, b))
+    text += "\n"
     for name, hdr, ty, is_weak in HANDLE_FNS:
         body = " ".join(_fn_body(src, hdr).split())
         p = HP(htokenize("{ " + body + " }"), set(methods))
